@@ -14,17 +14,26 @@ def _run_one(job):
     t0 = time.time()
     res = {'id': oid, 'verdict': 'unknown', 'backend': 'z3', 'model': None, 'raw': ''}
     try:
-        s = z3.Solver()
-        s.set('timeout', int(timeout_s * 1000))
-        s.from_string(smt2)
-        r = s.check()
-        res['verdict'] = str(r)
-        if r == z3.sat:
-            m = s.model()
-            res['model'] = {str(d.name()): str(m[d]) for d in m.decls() if d.arity() == 0}
-            res['raw'] = str(m)[:4000]
-        elif r == z3.unknown:
-            res['raw'] = s.reason_unknown()
+        # fresh context per query (term numbering of earlier queries in the same worker must not
+        # influence heuristics); on `unknown` retry with other random seeds before giving up
+        for attempt, seed in enumerate((0, 7, 23)):
+            ctx = z3.Context()
+            s = z3.Solver(ctx=ctx)
+            s.set('timeout', int(timeout_s * 1000 / (1 if attempt == 0 else 2)))
+            if seed:
+                s.set('random_seed', seed)
+                s.set('seed', seed)
+            s.from_string(smt2)
+            r = s.check()
+            res['verdict'] = str(r)
+            if r == z3.sat:
+                m = s.model()
+                res['model'] = {str(d.name()): str(m[d]) for d in m.decls() if d.arity() == 0}
+                res['raw'] = str(m)[:4000]
+            elif r == z3.unknown:
+                res['raw'] = s.reason_unknown() + f' (seed {seed})'
+                continue
+            break
     except Exception as e:  # parse errors etc. are checker crashes, reported as such
         res['verdict'] = 'error'
         res['raw'] = f'{type(e).__name__}: {e}'
